@@ -16,9 +16,12 @@ mod c04;
 mod c06;
 mod c07;
 mod c09;
+mod c10;
 mod common;
 mod dbg;
 mod c12;
+mod c13;
+mod c15;
 mod c16;
 mod selftest;
 
@@ -83,7 +86,10 @@ fn main() {
         "C09" => c09::run(&mut ctx),
         "C06" => c06::run(&mut ctx),
         "C04" => c04::run(&mut ctx),
+        "C10" => c10::run(&mut ctx),
         "C12" => c12::run(&mut ctx),
+        "C13" => c13::run(&mut ctx),
+        "C15" => c15::run(&mut ctx),
         "C16" => c16::run(&mut ctx),
         _ => {
             eprintln!("unknown property {prop}");
